@@ -267,7 +267,7 @@ func (h *H) call(A, B *Node, m *XMsg) callObs {
 	A.Sys.Tell(RemoteRecv(B), m)
 	co := callObs{msg: m, dur: time.Since(t)}
 	dl := fmt.Sprintf("dl%d:%d", m.Sender, m.Seq)
-	done := waitUntil(3*time.Second, func() bool {
+	done := waitUntil(10*time.Second, func() bool {
 		A.Ev.mu.Lock()
 		defer A.Ev.mu.Unlock()
 		for _, e := range A.Ev.Trace[tr0:] {
@@ -301,7 +301,7 @@ func (h *H) call(A, B *Node, m *XMsg) callObs {
 	co.dials = len(co.retry) + B.Proxy.NConns() - c0
 	if !done {
 		h.o.Monitor("c14-no-report", lib.L(lib.S("call"), lib.N(uint64(m.Sender)), lib.N(m.Seq)),
-			fmt.Sprintf("Tell(sender %d seq %d) returned after %v; within 3 s neither a RemotingMessageSentEvent nor a DeathLetterEvent for it (events: %v)", m.Sender, m.Seq, co.dur, co.events))
+			fmt.Sprintf("Tell(sender %d seq %d) returned after %v; within 10 s neither a RemotingMessageSentEvent nor a DeathLetterEvent for it (events: %v)", m.Sender, m.Seq, co.dur, co.events))
 		h.noReport++
 		if h.noReport >= 3 {
 			h.abort = true // every further scenario would wait again for reports that do not come
@@ -502,9 +502,11 @@ func (h *H) msg(sender uint32, n int) *XMsg {
 
 // flush: keep telling until one arrives (the link is fine again); every call belongs to the scenario
 func (sc *scenario) flush(h *H, max int) bool {
+	var sent []uint64
 	for i := 0; i < max && !h.abort; i++ {
 		m := h.msg(7, 1)
 		sc.do(h, m, 0)
+		sent = append(sent, m.Seq)
 		if waitUntil(40*time.Millisecond, func() bool {
 			for _, g := range sc.B.Rec.Snapshot(sc.m.rec) {
 				if g.Sender == 7 && g.Seq == m.Seq {
@@ -516,7 +518,21 @@ func (sc *scenario) flush(h *H, max int) bool {
 			return true
 		}
 	}
-	return false
+	// none showed up inside its 40 ms window: on a loaded machine the receiver may simply be slow.  A message that was
+	// written and has not arrived is given a generous time before "no recovery" is concluded (the LAST one arriving
+	// means everything before it on that connection has been handled)
+	if len(sent) == 0 || h.abort {
+		return false
+	}
+	last := sent[len(sent)-1]
+	return waitUntil(10*time.Second, func() bool {
+		for _, g := range sc.B.Rec.Snapshot(sc.m.rec) {
+			if g.Sender == 7 && g.Seq == last {
+				return true
+			}
+		}
+		return false
+	})
 }
 
 // ---- the scenarios ----
@@ -540,9 +556,13 @@ func (h *H) cutAt(A, B *Node, k int64, frameLen func(*XMsg) int, sizes []int) {
 	// goes out on a new connection (no overlap of the two connections at the receiver: see overlap())
 	rec, _ := c.Record()
 	nfull := len(splitFrames(rec[sc.start:]))
-	waitUntil(2*time.Second, func() bool { return B.Rec.Len()-sc.m.rec >= nfull })
+	waitUntil(10*time.Second, func() bool { return B.Rec.Len()-sc.m.rec >= nfull })
 	if !sc.flush(h, 12) && !h.abort {
 		h.o.Monitor("c14-no-recovery", lib.L(lib.S("cut"), lib.N(uint64(k))), fmt.Sprintf("%s: after the cut none of 12 further Tells (40 ms apart) was delivered although the peer is reachable", sc.name))
+		h.noRecovery++
+		if h.noRecovery >= 3 {
+			h.abort = true // every further scenario would only wait again
+		}
 	}
 	sc.finish(h, true)
 	h.o.Stats["cut-scenarios"]++
@@ -588,6 +608,10 @@ func (h *H) refused(A, B *Node, frameLen func(*XMsg) int) {
 	}
 	if !sc.flush(h, 12) && !h.abort {
 		h.o.Monitor("c14-no-recovery", lib.L(lib.S(sc.name)), sc.name+": the peer accepts connections again but none of 12 further Tells was delivered")
+		h.noRecovery++
+		if h.noRecovery >= 3 {
+			h.abort = true // every further scenario would only wait again
+		}
 	}
 	sc.finish(h, true)
 }
@@ -629,7 +653,7 @@ func (h *H) rejected(A, B *Node, frameLen func(*XMsg) int, hsCut int) {
 			if len(co.events) > 0 && co.events[0] == "sf" {
 				want--
 			}
-			waitUntil(500*time.Millisecond, func() bool { return B.Proxy.NConns()-n0 >= want })
+			waitUntil(5*time.Second, func() bool { return B.Proxy.NConns()-n0 >= want })
 		}
 		fails := B.Proxy.NConns() - n0
 		// every attempt after a leading write failure met one reset connection: either the dial itself reported the
@@ -676,6 +700,10 @@ func (h *H) rejected(A, B *Node, frameLen func(*XMsg) int, hsCut int) {
 	bad = false
 	if !sc.flush(h, 12) && !h.abort {
 		h.o.Monitor("c14-no-recovery", lib.L(lib.S(sc.name)), sc.name+": handshakes pass again but none of 12 further Tells was delivered")
+		h.noRecovery++
+		if h.noRecovery >= 3 {
+			h.abort = true // every further scenario would only wait again
+		}
 	}
 	B.Proxy.SetPlan(func(int) Plan { return defaultPlan() })
 	sc.finish(h, true)
@@ -755,6 +783,23 @@ func (h *H) garbage(A, B *Node, frameLen func(*XMsg) int) {
 	sc.flush(h, 6)
 	B.Proxy.SetPlan(func(int) Plan { return defaultPlan() })
 	// every message that was written on the new connection must have arrived although garbage sits between them
+	// (B gets a generous time to handle what it was handed)
+	handedAll := func() bool {
+		have := map[uint64]bool{}
+		for _, g := range B.Rec.Snapshot(m.rec) {
+			have[g.Seq] = true
+		}
+		for _, c := range B.Proxy.Conns(base) {
+			rec, _ := c.Record()
+			for _, fr := range splitFrames(rec) {
+				if x := decodeXMsgFrame(fr); x != nil && !have[x.Seq] {
+					return false
+				}
+			}
+		}
+		return true
+	}
+	waitUntil(10*time.Second, handedAll)
 	got := map[uint64]bool{}
 	for _, g := range B.Rec.Snapshot(m.rec) {
 		got[g.Seq] = true
@@ -810,6 +855,20 @@ func (h *H) restart(A, B *Node) *Node {
 			st = "dead-letter"
 		}
 		trace = append(trace, st)
+	}
+	if delivered < 0 {
+		// none inside its 30 ms window: give what was written a generous time before concluding "no recovery"
+		if waitUntil(10*time.Second, func() bool {
+			for _, g := range B2.Rec.Snapshot(0) {
+				if g.Sender == 11 {
+					return true
+				}
+			}
+			return false
+		}) {
+			delivered = len(trace)
+			trace = append(trace, "delivered-late")
+		}
 	}
 	h.o.Info[fmt.Sprintf("peer_restart_limit%d", A.Limit)] = trace
 	h.o.Stats["restart-runs"]++
